@@ -52,68 +52,286 @@ def split_arms(body):
     return arms
 
 
+# ------------------------------------------------------------------------------------------------
+# A small recogniser for the shapes in which the tables of yash-quote can naturally be written.
+# What is extracted is fixed (the sets of characters / strings and the structure bare -> '…' -> "…");
+# how it is spelled may vary:
+#   * `if cond { return true; }` chains and `a || b || …` chains (the Lean model is a Boolean `||` of the
+#     same pure conditions, so their ORDER is irrelevant and is not required);
+#   * character sets as `match` arms, `matches!(c, 'a' | 'b')`, `c == 'a'`, `[..].contains(&c)`,
+#     `CONST.contains(&c)` with a `const CONST: [char; N]` / `&[char]` in the file, or any of these inside
+#     a private one-expression helper called from the function (one level of helper calls is followed);
+#   * first-character tests as `s.chars().next()` comparisons or `s.starts_with(char | [chars])`;
+#   * the `open … close` rule as `s.find(o)` + `s[i + 1..].contains(c)` or `s.split_once(o)` + `rest.contains(c)`;
+#   * `Display for Quoted` as an if / else-if / else ladder or with early returns, `write!` or explicit writes.
+# The order bare / single quotes / double quotes in `Display` IS required (the model and the theorems
+# depend on which style is chosen first).  Anything not recognised -> loud failure (exit 2).
+
+def squash(src):
+    """Removes whitespace outside char and string literals."""
+    out, i, n = [], 0, len(src)
+    while i < n:
+        c = src[i]
+        if c == '"':
+            j = i + 1
+            while src[j] != '"':
+                j += 2 if src[j] == "\\" else 1
+            out.append(src[i:j + 1])
+            i = j + 1
+        elif c == "'":
+            m = re.match(CHAR_LIT, src[i:])
+            if m:
+                out.append(m.group(0))
+                i += m.end()
+            else:  # a lifetime
+                out.append(c)
+                i += 1
+        elif c.isspace():
+            i += 1
+        else:
+            out.append(c)
+            i += 1
+    return "".join(out)
+
+
+def split_top(expr, sep):
+    """Splits at top-level occurrences of `sep` (outside brackets and literals)."""
+    parts, depth, i, start, n = [], 0, 0, 0, len(expr)
+    while i < n:
+        c = expr[i]
+        if c == '"':
+            i += 1
+            while expr[i] != '"':
+                i += 2 if expr[i] == "\\" else 1
+        elif c == "'":
+            m = re.match(CHAR_LIT, expr[i:])
+            if m:
+                i += m.end() - 1
+        elif c in "([{":
+            depth += 1
+        elif c in ")]}":
+            depth -= 1
+        elif depth == 0 and expr.startswith(sep, i):
+            parts.append(expr[start:i])
+            i += len(sep)
+            start = i
+            continue
+        i += 1
+    parts.append(expr[start:])
+    return parts
+
+
+def strip_parens(e):
+    while e.startswith("(") and e.endswith(")") and len(split_top(e[1:-1], "\x00")) == 1:
+        # make sure the parentheses match each other
+        depth = 0
+        for k, c in enumerate(e):
+            depth += c == "("
+            depth -= c == ")"
+            if depth == 0 and k < len(e) - 1:
+                return e
+        e = e[1:-1]
+    return e
+
+
+def private_fn(T, src, name):
+    """(parameter names, squashed body) of a non-public one-expression helper `fn name(..)` of the file."""
+    m = re.search(r"(pub\s+)?(const\s+)?fn\s+" + re.escape(name) + r"\s*\(([^)]*)\)[^{;]*\{", src)
+    if not m:
+        return None
+    if m.group(1):
+        T.fail(f"helper `{name}` is public: only private helpers of the file are followed")
+    params = [p.split(":")[0].strip() for p in m.group(3).split(",") if p.strip()]
+    body = squash(T.item_body(src, r"fn\s+" + re.escape(name) + r"\s*\([^)]*\)[^{;]*", f"helper {name}"))
+    if ";" in split_top(body, "\x00")[0] and len(split_top(body, ";")) > 1:
+        T.fail(f"helper `{name}` is not a single expression")
+    return params, body
+
+
+def inline_call(T, src, e):
+    """If `e` is `name(args)` for a private helper, the helper's body with the arguments substituted."""
+    m = re.fullmatch(r"([a-z_][a-z0-9_]*)\((.*)\)", e)
+    if not m or "." in m.group(1):
+        return None
+    f = private_fn(T, src, m.group(1))
+    if f is None:
+        return None
+    params, body = f
+    args = split_top(m.group(2), ",")
+    if len(args) != len(params):
+        T.fail(f"call `{e}`: arity mismatch with helper")
+    for p_, a_ in zip(params, args):
+        body = re.sub(r"(?<![A-Za-z0-9_.])" + re.escape(p_) + r"(?![A-Za-z0-9_])", lambda _m, a_=a_: a_, body)
+    return body
+
+
+def lit_list(T, text, what):
+    """Characters of `'a'|'b'|…` or `'a','b',…` (nothing else allowed)."""
+    cs = chars_of(T, text)
+    seps = re.sub(CHAR_LIT, "", text)
+    if not cs or seps.strip("|,") != "":
+        T.fail(f"{what}: not a plain list of char literals: `{text}`")
+    return cs
+
+
+def const_array(T, src, name, what):
+    m = re.search(r"const\s+" + re.escape(name) + r"\s*:\s*(&\s*)?\[\s*char\s*(;\s*\d+\s*)?\]\s*=\s*&?\s*\[([^\]]*)\]\s*;", src)
+    if not m:
+        T.fail(f"{what}: constant `{name}` is not a `[char]` table of this file")
+    return lit_list(T, squash(m.group(3)).rstrip(","), what)
+
+
+def pred_chars(T, src, e, var, what, follow=True):
+    """The character predicate `e` over variable `var` as (explicit characters, uses is_whitespace)."""
+    e = strip_parens(e)
+    parts = split_top(e, "||")
+    if len(parts) > 1:
+        cs, ws = [], False
+        for part in parts:
+            c2, w2 = pred_chars(T, src, part, var, what, follow)
+            cs += c2
+            ws = ws or w2
+        return cs, ws
+    v = re.escape(var)
+    m = re.fullmatch(r"matches!\(" + v + r",(.*)\)", e)
+    if m:
+        return lit_list(T, m.group(1), what), False
+    m = re.fullmatch(v + r"==(" + CHAR_LIT + r")", e)
+    if m:
+        return lit_list(T, m.group(1), what), False
+    m = re.fullmatch(r"&?\[(.*)\]\.contains\(&" + v + r"\)", e)
+    if m:
+        return lit_list(T, m.group(1).rstrip(","), what), False
+    m = re.fullmatch(r"([A-Z][A-Z0-9_]*)\.contains\(&" + v + r"\)", e)
+    if m:
+        return const_array(T, src, m.group(1), what), False
+    if e == var + ".is_whitespace()":
+        return [], True
+    if follow:
+        body = inline_call(T, src, e)
+        if body is not None:
+            return pred_chars(T, src, body, var, what, follow=False)
+    T.fail(f"{what}: unrecognised character test `{e}`")
+
+
+def ascii_char(T, lit, what):
+    c = T.rust_char(lit)
+    if ord(c) >= 128:
+        T.fail(f"{what}: `{lit}` is not a one-byte character (the `s[i + 1..]` reading needs one)")
+    return c
+
+
+def classify_condition(T, src, e, follow=True):
+    """One disjunct of `str_needs_quoting` as a tagged tuple."""
+    what = "str_needs_quoting"
+    e = strip_parens(e)
+    if e == "s.is_empty()":
+        return ("empty",)
+    if e in ("s.chars().any(char_needs_quoting)", "s.chars().any(|c|char_needs_quoting(c))"):
+        return ("any",)
+    m = re.fullmatch(r's\.contains\("([^"\\]+)"\)', e)
+    if m:
+        return ("infix", m.group(1))
+    m = re.fullmatch(r"s\.starts_with\(&?\[(.*)\]\)", e) or re.fullmatch(r"s\.starts_with\((" + CHAR_LIT + r")\)", e)
+    if m:
+        return ("first", lit_list(T, m.group(1).rstrip(","), what))
+    m = re.fullmatch(r"matches!\(s\.chars\(\)\.next\(\),Some\((.*)\)\)", e)
+    if m:
+        return ("first", lit_list(T, m.group(1), what))
+    m = (re.fullmatch(r"letSome\(c\)=s\.chars\(\)\.next\(\)&&(.*)", e)
+         or re.fullmatch(r"s\.chars\(\)\.next\(\)\.is_some_and\(\|c\|(.*)\)", e))
+    if m:
+        cs, ws = pred_chars(T, src, m.group(1), "c", what)
+        if ws:
+            T.fail("str_needs_quoting: whitespace test in the first-character rule")
+        return ("first", cs)
+    for pat in (r"letSome\(i\)=s\.find\((CH)\)&&s\[i\+1\.\.\]\.contains\((CH)\)",
+                r"s\.find\((CH)\)\.is_some_and\(\|i\|s\[i\+1\.\.\]\.contains\((CH)\)\)",
+                r"matchs\.split_once\((CH)\)\{Some\(\(_,([a-z_]+)\)\)=>\3\.contains\((CH)\),None=>false,?\}",
+                r"s\.split_once\((CH)\)\.is_some_and\(\|\(_,([a-z_]+)\)\|\3\.contains\((CH)\)\)"):
+        m = re.fullmatch(pat.replace("CH", CHAR_LIT), e)
+        if m:
+            lits = [g for g in m.groups() if g is not None and re.fullmatch(CHAR_LIT[1:-1], g)]
+            return ("pair", ascii_char(T, lits[0], what), T.rust_char(lits[-1]))
+    if follow:
+        body = inline_call(T, src, e)
+        if body is not None:
+            return classify_condition(T, src, body, follow=False)
+    T.fail(f"str_needs_quoting: unrecognised condition `{e}`")
+
+
+def conditions_of(T, body):
+    """The disjuncts of a function written as `if c {return true;}`… and/or a final `a || b || …`."""
+    conds, rest = [], squash(body)
+    while rest.startswith("if"):
+        k = rest.find("{returntrue;}")
+        if k < 0:
+            T.fail("str_needs_quoting: an `if` that does not `return true`")
+        conds.append(rest[2:k])
+        rest = rest[k + len("{returntrue;}"):]
+    if rest != "false":
+        conds += split_top(rest, "||")
+    return conds
+
+
 def quote_tables(T):
     src = strip_comments(T.read("yash-quote/src/lib.rs"))
     # --- char_needs_quoting
     body = T.item_body(src, r"fn char_needs_quoting\(c: char\) -> bool", "yash-quote char_needs_quoting")
-    m = re.search(r"match c", body)
-    if not m:
-        T.fail("char_needs_quoting is no longer a `match c`")
-    arms = split_arms(T.item_body(body, r"match c", "char_needs_quoting match"))
-    if not arms:
-        T.fail("char_needs_quoting: cannot split match arms")
-    explicit, fallback = [], None
-    for pat, expr in arms:
-        if pat == "_":
-            if expr == "c.is_whitespace()":
-                fallback = True
-            elif expr == "false":
-                fallback = False
+    if re.match(r"\s*match c\b", body):
+        arms = split_arms(T.item_body(body, r"match c", "char_needs_quoting match"))
+        if not arms:
+            T.fail("char_needs_quoting: cannot split match arms")
+        explicit, fallback = [], None
+        for pat, expr in arms:
+            if pat == "_":
+                if expr == "c.is_whitespace()":
+                    fallback = True
+                elif expr == "false":
+                    fallback = False
+                else:
+                    T.fail(f"char_needs_quoting: unexpected fallback arm `{expr}`")
             else:
-                T.fail(f"char_needs_quoting: unexpected fallback arm `{expr}`")
-        else:
-            cs = chars_of(T, pat)
-            rebuilt = " | ".join("'" + m.group(1) + "'" for m in re.finditer(CHAR_LIT, pat))
-            if re.sub(r"\s+", " ", pat) != rebuilt:
-                T.fail(f"char_needs_quoting: pattern not a list of char literals: `{pat}`")
-            if expr == "true":
-                explicit += cs
-            elif expr == "false":
-                T.fail("char_needs_quoting: an explicit `false` arm is not supported by the model")
-            else:
-                T.fail(f"char_needs_quoting: unexpected arm value `{expr}`")
-    if fallback is None:
-        T.fail("char_needs_quoting: no `_` arm")
+                cs = lit_list(T, squash(pat), "char_needs_quoting")
+                if expr == "true":
+                    explicit += cs
+                else:
+                    T.fail(f"char_needs_quoting: unexpected arm value `{expr}` (only `true` arms and a `_` arm are modelled)")
+        if fallback is None:
+            T.fail("char_needs_quoting: no `_` arm")
+    else:
+        explicit, fallback = pred_chars(T, src, squash(body), "c", "char_needs_quoting")
 
-    # --- str_needs_quoting
+    # --- str_needs_quoting: a disjunction of pure conditions (order irrelevant for the model)
     sbody = T.item_body(src, r"fn str_needs_quoting\(s: &str\) -> bool", "yash-quote str_needs_quoting")
-    if not re.search(r"if s\.is_empty\(\)\s*\{\s*return true;", sbody):
-        T.fail("str_needs_quoting: empty-string rule missing")
-    m = re.search(r"s\.chars\(\)\.next\(\)\s*&&\s*\(([^)]*)\)\s*\{\s*return true;", sbody)
-    if not m:
-        T.fail("str_needs_quoting: first-character rule missing")
-    first = chars_of(T, m.group(1))
-    if re.sub(r"\s+", "", m.group(1)) != "||".join("c=='" + (c if c != "'" else "\\'") + "'" for c in first):
-        T.fail("str_needs_quoting: first-character rule has an unexpected shape")
-    if not re.search(r"if s\.chars\(\)\.any\(char_needs_quoting\)\s*\{\s*return true;", sbody):
-        T.fail("str_needs_quoting: any(char_needs_quoting) rule missing")
-    infix = re.findall(r'if s\.contains\("([^"\\]*)"\)\s*\{\s*return true;', sbody)
-    pairs = [(T.rust_char(a), T.rust_char(b)) for a, b in re.findall(
-        r"if let Some\(i\) = s\.find\(" + CHAR_LIT + r"\)\s*&&\s*s\[i \+ 1\.\.\]\.contains\(" + CHAR_LIT + r"\)\s*\{\s*return true;",
-        sbody)]
-    n_returns = len(re.findall(r"return true;", sbody))
-    if n_returns != 3 + len(infix) + len(pairs) or not sbody.rstrip().endswith("false"):
-        T.fail(f"str_needs_quoting: {n_returns} `return true` rules, {3 + len(infix) + len(pairs)} understood")
+    conds = [classify_condition(T, src, c) for c in conditions_of(T, sbody)]
+    if [c for c in conds if c[0] == "empty"] != [("empty",)]:
+        T.fail("str_needs_quoting: the empty-string rule must occur exactly once")
+    if [c for c in conds if c[0] == "any"] != [("any",)]:
+        T.fail("str_needs_quoting: the any(char_needs_quoting) rule must occur exactly once")
+    first = [ch for c in conds if c[0] == "first" for ch in c[1]]
+    infix = [c[1] for c in conds if c[0] == "infix"]
+    pairs = [(c[1], c[2]) for c in conds if c[0] == "pair"]
 
-    # --- Display for Quoted
-    dbody = T.item_body(src, r"impl std::fmt::Display for Quoted<'_>", "yash-quote Display for Quoted")
-    m = re.search(r"if !self\.needs_quoting \{\s*f\.write_str\(self\.raw\)\s*\} else if !self\.raw\.contains\(" + CHAR_LIT +
-                  r"\) \{\s*write!\(f, \"'\{\}'\", self\.raw\)\s*\} else \{\s*f\.write_char\('\"'\)\?;\s*for c in self\.raw\.chars\(\) \{\s*"
-                  r"if matches!\(c, ([^)]*)\) \{\s*f\.write_char\('\\\\'\)\?;\s*\}\s*f\.write_char\(c\)\?;\s*\}\s*f\.write_char\('\"'\)", dbody)
+    # --- Display for Quoted: bare, then '…' unless the blocker occurs, then "…" with escapes (order required)
+    dbody = squash(T.item_body(src, r"impl std::fmt::Display for Quoted<'_>", "yash-quote Display for Quoted"))
+    m = re.search(r"fnfmt\(&self,f:&mutstd::fmt::Formatter<'_>\)->std::fmt::Result\{(.*)\}$", dbody)
+    if not m:
+        T.fail("Display for Quoted: `fmt` not found")
+    fbody = re.sub(r"^usestd::fmt::Writeas_;", "", m.group(1))
+    sq_body = (r"(?:(?:return)?write!\(f,\"'\{\}'\",self\.raw\);?"
+               r"|f\.write_char\('\\''\)\?;f\.write_str\(self\.raw\)\?;(?:return)?f\.write_char\('\\''\);?)")
+    shape = (r"if!self\.needs_quoting\{(?:return)?f\.write_str\(self\.raw\);?\}(?:else)?"
+             r"if!self\.raw\.contains\((" + CHAR_LIT + r")\)\{" + sq_body + r"\}(?:else\{)?"
+             r"f\.write_char\('\"'\)\?;forcinself\.raw\.chars\(\)\{if(.*?)\{f\.write_char\('\\\\'\)\?;\}f\.write_char\(c\)\?;\}"
+             r"(?:return)?f\.write_char\('\"'\);?\}?")
+    m = re.fullmatch(shape, fbody)
     if not m:
         T.fail("Display for Quoted: the bare / '...' / \"...\" structure has changed")
-    blocker = T.rust_char(m.group(1))
-    escaped = chars_of(T, m.group(2))
+    blocker = T.rust_char(m.group(2))
+    escaped, ws = pred_chars(T, src, m.group(3), "c", "Display for Quoted (escape test)")
+    if ws:
+        T.fail("Display for Quoted: whitespace in the escape test is not modelled")
 
     # --- lexer: operators, blanks, delimiters
     op = strip_comments(T.read("yash-syntax/src/parser/lex/op.rs"))
